@@ -89,6 +89,11 @@ def cases(run: Run):
         }
         c["hour"] = int(round((24 - lon / 15.0) % 24)) % 24
         out.append(c)
+    # "within the sensor's stated noise", for a sensor whose stated noise is correlated: the noisy measurements of one geometry, whitened with the
+    # stated covariance, have the identity as their sample covariance
+    for _ in range(run.n(3, 12)):
+        out.append({"op": "noise", "labels": rng.choice([["azimuth_rad", "elevation_rad"], ["azimuth_rad", "elevation_rad", "range_km", "range_rate_km_p_sec"]]),
+                    "rho": rng.choice([0.9, -0.9, 0.6, -0.5, 0.0]), "n": 1500, "seed": rng.randint(1, 10**6)})
     # the same constraints through a whole scenario (engine, worker jobs, the sensor state reported back to the main process): a slow mount and
     # geostationary targets further apart than one step's slew budget - what the sensor reports over many steps must be reachable
     for _ in range(run.n(1, 5)):
@@ -362,8 +367,13 @@ def oracle(run: Run, c, impl, mo):
 
 
 def run_cases(run: Run, cs):
+    for c in [c for c in cs if c.get("op") == "noise"]:
+        r = guarded(noise_run, c)
+        run.case("noise", c, nontrivial=True, branch=f"noise:{len(c['labels'])}d:{'correlated' if c['rho'] else 'diagonal'}")
+        for key, what in noise_oracle(c, r):
+            run.fail(key, c, what)
     scn_cases = [c for c in cs if c.get("op") == "scn"]
-    cs = [c for c in cs if c.get("op") != "scn"]
+    cs = [c for c in cs if c.get("op") not in ("scn", "noise")]
     for c in scn_cases:
         r = guarded(scn_run, c)
         run.case("scenario", c, nontrivial=True, branch=f"scenario:{c['decision']}")
@@ -397,6 +407,46 @@ def run_cases(run: Run, cs):
                     run.disagree("collect", c, f"{got} bg {got_bg}", mo)
         for key, what in oracle(run, c, i, mo):
             run.fail(key, c, what)
+
+
+# ----------------------------------------------------------------------------- the stated noise
+def noise_run(c):
+    from resonaate.physics.measurements import Measurement
+
+    m = len(c["labels"])
+    sig = np.array([1e-4, 2e-4, 0.05, 1e-3][:m])
+    corr = np.eye(m)
+    corr[0, 1] = corr[1, 0] = c["rho"]
+    if m == 4:
+        corr[2, 3] = corr[3, 2] = -c["rho"] / 2
+    R = np.outer(sig, sig) * corr
+    meas = Measurement.fromMeasurementLabels(c["labels"], R)
+    sen = np.array([6378.0, 0.0, 0.0, 0.0, 0.465, 0.0])
+    tgt = np.array([7000.0, 1500.0, 900.0, -1.0, 6.9, 2.0])
+    when = datetime(2021, 3, 30, 16, 0, 0)
+    clean = meas.calculateMeasurement(sen, tgt, when, noisy=False)
+    np.random.seed(c["seed"])
+    L = np.linalg.cholesky(R)
+    W = np.zeros((m, m))
+    for _ in range(c["n"]):
+        noisy = meas.calculateNoisyMeasurement(sen, tgt, when)
+        d = np.array([noisy[k] - clean[k] for k in c["labels"]])
+        d[:2] = (d[:2] + np.pi) % (2 * np.pi) - np.pi
+        w = np.linalg.solve(L, d)
+        W += np.outer(w, w)
+    return {"whitened_cov": (W / c["n"]).tolist()}
+
+
+def noise_oracle(c, impl):
+    if impl[0] != "ok":
+        return [("noise:raises", str(impl[1]))]
+    W = np.array(impl[1]["whitened_cov"])
+    dev = float(np.max(np.abs(W - np.eye(len(W)))))
+    # entries of the sample covariance of n whitened draws scatter by about sqrt(2/n) (diagonal) about the identity: 0.25 is more than six of those for n = 1500
+    if dev > 0.25:
+        return [("noise:covariance", f"{c['n']} noisy measurements ({c['labels']}, correlation {c['rho']}) whitened with the stated covariance have sample covariance "
+                                     f"{np.round(W, 2).tolist()} - {dev:.2f} from the identity")]
+    return []
 
 
 # ----------------------------------------------------------------------------- the constraints through a whole scenario
@@ -468,7 +518,7 @@ def search(run: Run):
     sub.__dict__.update(run.__dict__)
     sub.rng = __import__("random").Random(run.seed + 59)
     sub.tier = "thorough"
-    for c in [c for c in cases(sub) if c.get("op") != "scn"][:2500]:
+    for c in [c for c in cases(sub) if c.get("op") not in ("scn", "noise")][:2500]:
         f = oracle(run, c, guarded(impl_run, c), None)
         if f:
             return (f[0][0], c, f[0][1])
